@@ -185,9 +185,12 @@ def apply_op(E, op, units, streams):
     pre = core.PathAbort
     if op in ('set-in', 'set-out'):
         lst = u.ins if op == 'set-in' else u.outs
-        if not len(lst):
+        fixed = u._ins_size_is_fixed if op == 'set-in' else u._outs_size_is_fixed
+        # variable-size lists also accept the index one past the end (the list grows)
+        n_idx = len(lst) + (0 if fixed else 1)
+        if not n_idx:
             raise pre('empty list')
-        i = E.choice(len(lst), 'index')
+        i = E.choice(n_idx, 'index')
         s = streams[E.choice(nS, 'stream')]
         if any(x is s for x in lst):
             raise pre('stream already in the same port list')
@@ -252,9 +255,10 @@ def apply_op(E, op, units, streams):
         streams[E.choice(nS, 'stream')].disconnect()
     elif op == 'pipe-stream-into':
         s = streams[E.choice(nS, 'stream')]
-        if not len(u.ins):
+        n_idx = len(u.ins) + (0 if u._ins_size_is_fixed else 1)
+        if not n_idx:
             raise pre('empty list')
-        i = E.choice(len(u.ins), 'index')
+        i = E.choice(n_idx, 'index')
         if any(x is s for x in u.ins):
             raise pre('stream already in the same port list')
         r = s-i-u
@@ -262,9 +266,10 @@ def apply_op(E, op, units, streams):
             raise AssertionError('pipe does not return the unit')
     elif op == 'pipe-out-of':
         s = streams[E.choice(nS, 'stream')]
-        if not len(u.outs):
+        n_idx = len(u.outs) + (0 if u._outs_size_is_fixed else 1)
+        if not n_idx:
             raise pre('empty list')
-        i = E.choice(len(u.outs), 'index')
+        i = E.choice(n_idx, 'index')
         if any(x is s for x in u.outs):
             raise pre('stream already in the same port list')
         r = u**i**s
